@@ -23,4 +23,23 @@ def holdsComposite (gs : GlyphSet) (g : Glyph) (flatten : Bool) (obs : List TTCo
      obs.all (fun k => match gs.get? k.base with | some b => isMixedOrSimple b | none => false)
    else obs == g.comps.map (fun k => ⟨k.base, otRound k.t.dx, otRound k.t.dy, k.t.linear⟩))
 
+def sameMultiset (a b : List (List TTPoint)) : Bool :=
+  a.length == b.length && a.all (fun c => a.count c == b.count c) && b.all (fun c => a.count c == b.count c)
+
+/-- with a skip-export list: splicing a skipped component in may change the order of contours (it is drawn where the
+    reference stood), so the contours are compared as a multiset -/
+def holdsSimpleSkip (o : Opts) (gs : GlyphSet) (g : Glyph) (obs : List (List TTPoint)) : Bool :=
+  sameMultiset obs (specSimple o gs g)
+
+/-- with a skip-export list: a glyph that stays a composite references only glyphs present in the compiled font, none of
+    them skipped, and — interpreting the observed references (integral offsets, exact 2×2) over the SOURCE glyph set — it
+    draws exactly the contours the source glyph drew (as a multiset) -/
+def holdsCompositeSkip (skip : List String) (gs : GlyphSet) (g : Glyph) (obs : List TTComp) (order : List String) : Bool :=
+  obs.all (fun k => order.contains k.base && !skip.contains k.base) &&
+  (let asComps : List Comp := obs.map (fun k => ⟨k.base, ⟨k.lin.1, k.lin.2.1, k.lin.2.2.1, k.lin.2.2.2, (k.dx : Q), (k.dy : Q)⟩⟩)
+   let drawn := renderGlyph gs { g with contours := [], comps := asComps }
+   let want := renderGlyph gs g
+   drawn.length == want.length && drawn.all (fun c => drawn.count c == want.count c) &&
+     want.all (fun c => drawn.count c == want.count c))
+
 end Ufo2ft.C02
